@@ -107,6 +107,20 @@ FRAMES += [
 ]
 
 FRAMES += [
+    # a generated loop variable (nested loops ending in container.extend(...) become one generator expression) must stay clear of single
+    # letters bound by something that is not an assignment: an exception name, a match capture, a with target, a walrus, an import alias,
+    # a global declared elsewhere, a lambda parameter in scope, a comprehension variable read by the expression
+    "def collect(groups, table, out):\n    try:\n        return table['missing']\n    except LookupError as a:\n        for group in groups:\n            for item in group:\n                out.extend(a.args + (item,))\n    return out\n\n\nprint(collect([[1], [2]], {{}}, []))\n",
+    "def collect(groups, shape, out):\n    match shape:\n        case [a, *_]:\n            for group in groups:\n                for item in group:\n                    out.extend((a, item))\n    return out\n\n\nprint(collect([[1], [2]], [9, 8], []))\n",
+    "import contextlib\n\n\ndef collect(groups, out):\n    with contextlib.nullcontext((7,)) as a:\n        for group in groups:\n            for item in group:\n                out.extend(a + (item,))\n    return out\n\n\nprint(collect([[1], [2]], []))\n",
+    "def collect(groups, out):\n    if (a := (5,)):\n        for group in groups:\n            for item in group:\n                out.extend(a + (item,))\n    return out\n\n\nprint(collect([[1], [2]], []))\n",
+    "import os.path as a\n\n\ndef collect(groups, out):\n    for group in groups:\n        for item in group:\n            out.extend((a.sep, item))\n    return out\n\n\nprint(collect([[1], [2]], []))\n",
+    "from os import sep as a, linesep as b, curdir as c\n\n\ndef collect(groups, out):\n    for group in groups:\n        for item in group:\n            out.extend((a, b, c, item))\n    return out\n\n\nprint(collect([[1], [2]], []))\n",
+    "def collect(groups, out, a=(3,), b=(4,)):\n    for group in groups:\n        for item in group:\n            out.extend(a + b + (item,))\n    return out\n\n\nprint(collect([[1], [2]], []))\n",
+    "def collect[a](groups: list[a], out):\n    for group in groups:\n        for item in group:\n            out.extend((item, item))\n    return out\n\n\nprint(collect([[1], [2]], []), collect.__type_params__)\n",
+]
+
+FRAMES += [
     # a static method reached through an expression that is neither the class name nor a plain instance name: the method must stay (or every
     # such reference must follow it)
     "class K:\n    @staticmethod\n    def {v}(x):\n        return x * 2\n\n    def run(self):\n        return type(self).{v}(3) + K.{v}(1)\n\n\nprint(K().run())\n",
